@@ -140,7 +140,23 @@ func (r *Repr) isBV(t types.Type) bool {
 }
 
 // sortOf gives the SMT sort of a scalar Go type.
+// abstractTypes: named types of dependencies that are modelled as uninterpreted sorts (declared with
+// `abstract <type> <Sort>` in the dependency specs).
+var abstractTypes = map[string]string{}
+
+func abstractSort(t types.Type) *Sort {
+	if n, ok := t.(*types.Named); ok && n.Obj().Pkg() != nil {
+		if s, ok := abstractTypes[n.Obj().Pkg().Path()+"."+n.Obj().Name()]; ok {
+			return UnS(s)
+		}
+	}
+	return nil
+}
+
 func (r *Repr) sortOf(t types.Type) *Sort {
+	if s := abstractSort(t); s != nil {
+		return s
+	}
 	if b, ok := basicOf(t); ok {
 		if b.Info()&types.IsBoolean != 0 {
 			return BoolS
